@@ -576,6 +576,12 @@ static void push_args2(Node *args, bool first_pass) {
   default:
     push();
   }
+
+  // Padding between this stack argument and the one before it.
+  if (args->pass_by_stack && args->stack_pad) {
+    println("  sub $%d, %%rsp", args->stack_pad * 8);
+    depth += args->stack_pad;
+  }
 }
 
 // Load function call arguments. Arguments are already evaluated and
@@ -619,25 +625,27 @@ static int push_args(Node *node) {
         fp += nfp;
       } else {
         arg->pass_by_stack = true;
-        stack += align_to(ty->size, 8) / 8;
       }
       break;
     case TY_FLOAT:
     case TY_DOUBLE:
-      if (fp++ >= FP_MAX) {
+      if (fp++ >= FP_MAX)
         arg->pass_by_stack = true;
-        stack++;
-      }
       break;
     case TY_LDOUBLE:
       arg->pass_by_stack = true;
-      stack += 2;
       break;
     default:
-      if (gp++ >= GP_MAX) {
+      if (gp++ >= GP_MAX)
         arg->pass_by_stack = true;
-        stack++;
-      }
+    }
+
+    // A stack argument is aligned to 8 bytes, or to 16 bytes if its
+    // type requires that (long double and structs containing one).
+    if (arg->pass_by_stack) {
+      int align = MAX(8, ty->align) / 8;
+      arg->stack_pad = align_to(stack, align) - stack;
+      stack += arg->stack_pad + align_to(ty->size, 8) / 8;
     }
   }
 
@@ -1461,7 +1469,7 @@ static void assign_lvar_offsets(Obj *prog) {
           continue;
       }
 
-      top = align_to(top, 8);
+      top = align_to(top, MAX(8, var->align));
       var->offset = top;
       top += var->ty->size;
     }
